@@ -314,7 +314,16 @@ func execC11(c C11Case) *Failure {
 			nonce := fmt.Sprintf("n%d", seq)
 			var err error
 			if st.Op == "send" {
-				err = w.Srv.SendNotification(conn.SessionID, "notifications/verif", map[string]interface{}{"nonce": nonce})
+				// addressed, or filtered down to this session (a broadcast would also reach the bystander session)
+				if seq%2 == 0 {
+					err = w.Srv.SendNotification(conn.SessionID, "notifications/verif", map[string]interface{}{"nonce": nonce})
+				} else {
+					var n int
+					n, _, err = w.Srv.SendFilteredNotification("notifications/verif", map[string]interface{}{"nonce": nonce}, func(id string) bool { return id == conn.SessionID })
+					if err == nil && n == 0 && owner() != nil {
+						err = fmt.Errorf("SendFilteredNotification reached 0 sessions")
+					}
+				}
 			} else {
 				ctx, cancel := context.WithTimeout(context.Background(), 3*time.Millisecond)
 				_, err = w.Srv.SendRequest(ctx, conn.SessionID, &mcp.JSONRPCRequest{JSONRPC: "2.0", ID: "rq-" + nonce, Request: mcp.Request{Method: "verif/request"}, Params: map[string]interface{}{"nonce": nonce}})
